@@ -41,7 +41,7 @@ func init() {
 		Batches:     tierN(256, 4096),
 		Helpers:     []string{"holder"},
 		Chunk:       8,
-		Floors:      []string{"debit-by-owner-witness", "debit-by-calling-contract", "debit-by-alphabet", "refused-foreign-signer", "refused-wrong-scope", "refused-foreign-contract-caller", "direct-epoch-unlock-refused"},
+		Floors:      []string{"debit-by-owner-witness", "debit-by-calling-contract", "debit-by-alphabet", "refused-foreign-signer", "refused-wrong-scope", "refused-foreign-contract-caller", "direct-epoch-unlock-refused", "committee-re-elected"},
 		Run:         func(b *runner.Batch) { runBalance(b, "C02") },
 	})
 	runner.Register(&runner.Check{
@@ -52,7 +52,7 @@ func init() {
 		Batches:     tierN(192, 2048),
 		Helpers:     []string{"holder"},
 		Chunk:       8,
-		Floors:      []string{"tick-released>=3", "lock-fully-burnt", "lock-partially-burnt", "zero-amount-lock", "tick-below-until", "zero-lock-released", "nested-locks-released-by-one-tick"},
+		Floors:      []string{"tick-released>=3", "lock-fully-burnt", "lock-partially-burnt", "zero-amount-lock", "tick-below-until", "zero-lock-released", "nested-locks-released-by-one-tick", "lock-with-a-negative-until"},
 		Run:         func(b *runner.Batch) { runBalance(b, "C09") },
 	})
 }
@@ -154,7 +154,18 @@ func runBalance(b *runner.Batch, mode string) {
 			nops = 200
 		}
 	}
+	reelectAt := -1
+	if b.Index%4 == 2 {
+		reelectAt = nops / 3 // a third of the way the committee is voted out (seeded change C02-7: a cached Alphabet address)
+	}
 	for i := 0; i < nops && b.NViolations() == 0; i++ {
+		if i == reelectAt {
+			if err := e.w.Reelect(world.Keys(b.Seed, b.Index, "committee-2", e.w.N)); err != nil {
+				b.Inconclusive("re-election: " + err.Error())
+				return
+			}
+			b.Hit("committee-re-elected")
+		}
 		hostile := b.Rng.IntN(3) != 0
 		var gen func() *op
 		switch mode {
